@@ -36,6 +36,10 @@ def _world(r):
     names = {'l': gen.host_list_spec(r, 1, 4, depth=1), 'd': gen.host_dict_spec(r, 1, 3, depth=1)}
     if r.random() < 0.6:
         names['n'] = [gen.host_list_spec(r, 1, 3, depth=0), gen.host_dict_spec(r, 1, 2, depth=0)]
+    if r.random() < 0.04:
+        names['bd'] = {'drange': 10000}      # a host dict that has reached the size cap (replacing an entry is refused like adding one)
+    if r.random() < 0.3:
+        names['nv'] = None                   # a host variable that holds nothing yet
     if r.random() < 0.3:
         names['l2'] = {'alias': 'l'}        # the host hands the same list to the program under a second name
     w = {'names': names, 'host_fns': ['keep']}
@@ -146,6 +150,8 @@ def _gen_op(r, model):
     if k == 'setitem':
         te, obj = r.choice(tg)
         return {'op': 'eval', 'prog': ['setitem', te, _key_for(r, obj), _source_expr(r, model)], 'form': 'setitem'}
+    if k == 'short' and 'nv' in model.host and model.host['nv'] is None and r.random() < 0.4:
+        return {'op': 'eval', 'prog': ['short', 'nv', '+=', _source_expr(r, model)], 'form': 'short'}
     if k == 'short':
         lists = [(te, o) for te, o in tg if te[0] == 'name' and isinstance(o, list)]
         if lists:
